@@ -191,11 +191,23 @@ class ArgparseRunner:
             sys.stdout.write(";")
 
     def _list_outputs_only(self) -> None:
+        # The dry run must receive the same arguments as the real run in _generate: the set of support files
+        # depends on omit_serialization_support.
         if self._args.generate_support != "only":
-            self._stdout_lister(self._generator.generate_all(is_dryrun=True), str)
+            self._stdout_lister(
+                self._generator.generate_all(
+                    is_dryrun=True, omit_serialization_support=self._args.omit_serialization_support
+                ),
+                str,
+            )
 
         if self._should_generate_support():
-            self._stdout_lister(self._support_generator.generate_all(is_dryrun=True), str)
+            self._stdout_lister(
+                self._support_generator.generate_all(
+                    is_dryrun=True, omit_serialization_support=self._args.omit_serialization_support
+                ),
+                str,
+            )
 
     def _list_inputs_only(self) -> None:
         if self._args.generate_support != "only":
